@@ -1422,8 +1422,8 @@ namespace hgraph::ts_data_plan_factory_detail
 
             [[nodiscard]] static bool size_has_current_value(const void *context, const void *memory) noexcept
             {
-                static_cast<void>(context);
-                return window_tracking(context, memory)->last_modified_time != MIN_DT;
+                return window_tracking(context, memory)->last_modified_time != MIN_DT &&
+                       window_size(context, memory) >= layout_for(context).min_period;
             }
         };
 
